@@ -30,6 +30,9 @@ is the cookie, the rest are attributes) and a reference model written from the s
   Set-Cookie lines of every successful call must be on that response (status as implied by the ending);
 * warnings filter as a case dimension: with DeprecationWarning escalated to an error (Tornado's own test
   configuration) a call using a deprecated mixed-case keyword raises - and then must not be emitted either;
+* histories: a case may span several requests through the same handler class / Application (pseudo-op
+  ``next_request``); every request is judged on its own, so nothing a rejected call built may show up in a later
+  valid call for the same name, in the same or in the next request;
 * a call that raised has no effect at all: the cookies set by earlier successful calls (same name
   included) are still emitted exactly as set, and nothing of the rejected call is.
 * a plain HTTP date given through the deprecated ``Expires=`` spelling (documented as accepted) is not
@@ -58,6 +61,12 @@ Sensitivity (scratch copies, quick tier, seed 1):
     http.cookies.Morsel._reserved of the running Python in display / upper / capitalised / lower spelling
     (Expires, Max-Age, Secure, HttpOnly, Version, Comment ..., 24 spellings + 2 unknown ones) x 23 payloads, and the
     enumerated "legacy" part runs each alone and on top of explicit parameters via set / signed / clear (1372 cases).
+  * web.py set_cookie builds its morsel in ONE class-level SimpleCookie shared by all handlers and pops it at the end:
+    a call that is refused late leaves its half-built morsel (Domain, HttpOnly ...) behind and the next valid call for
+    that name - same request or a later one - is emitted with those attributes -> caught at seeds 1,2,3
+    (attributes_differ in "shapes" and the exploration; additionally result_depends_on_earlier_cases from the runner's
+    repeat pass).  New: late-rejected-then-valid histories for one name within a request and across requests
+    (pseudo-op next_request, labels accept_after_reject_same_name / several_requests).
   * web.py the DeprecationWarning for mixed-case keyword arguments issued at the END of set_cookie, after the cookie
     was committed: with the warning escalated to an error the call raises AND its cookie is sent / replaces the earlier
     setting -> caught at seeds 1,2,3 (extra_cookie, attributes_differ).  Missed before: warnings were always ignored.
@@ -359,7 +368,29 @@ def unencodable_class(ops, raised):
 
 
 # --------------------------------------------------------------------------- the oracle
+NEXT_REQUEST = ("next_request", "", "", {})
+
+
 def evaluate(ops):
+    """A case may span several requests through the same handler class / Application: the pseudo-op
+    ("next_request", "", "", {}) ends one request and starts the next.  Every request is judged on its own."""
+    if any(op[0] == "next_request" for op in ops):
+        labels, segment = {"several_requests"}, []
+        for op in list(ops) + [NEXT_REQUEST]:
+            if op[0] != "next_request":
+                segment.append(op)
+                continue
+            if segment:
+                lab, prob = evaluate_request(segment)
+                labels |= lab
+                if prob:
+                    return labels, prob
+            segment = []
+        return labels, None
+    return evaluate_request(ops)
+
+
+def evaluate_request(ops):
     labels = set()
     CUR.clear()
     CUR.update(phase="set", ops=ops, raised=[], times=[], done=False)
@@ -438,6 +469,7 @@ def evaluate(ops):
     # A call that raised must have NO effect on the response: "either that call raises or ..." leaves no
     # room for a rejected call changing what earlier, successful calls emit.
     accepted_before = set()
+    rejected_before = set()
     count = {}
     flushed = False
     for op, rz, tm in zip(ops, raised, times):
@@ -455,7 +487,10 @@ def evaluate(ops):
         if rz is not None:
             if name in accepted_before:
                 labels.add("raise_after_accept_same_name")
+            rejected_before.add(name)
             continue
+        if name in rejected_before:
+            labels.add("accept_after_reject_same_name")
         accepted_before.add(name)
         count[name] = count.get(name, 0) + 1
         model[name] = (op, tm)
@@ -732,6 +767,33 @@ def _streaming():
 
 
 ENDINGS = sorted(END_CODES)
+# calls that are refused only late (after the cookie object has been built): whatever they built must not survive
+LATE_REJECTED = [
+    ("set", "\u20ac", {"domain": "example.com", "httponly": True}),
+    ("set", "\u2603", {"path": "/x", "secure": True, "max_age": 7}),
+    ("set", "v", {"domain": "\u2603.com", "httponly": True, "samesite": "Strict"}),
+    ("set", "v", {"path": "/\u2603", "domain": "example.com", "expires": ("num", 1700000000)}),
+    ("set", "v", {"secure": True, "legacy": {"Version": "x "}}),
+    ("signed", "v", {"domain": "\u2603.com", "httponly": True}),
+    ("clear", "", {"domain": "\u2603.com", "path": "/x"}),
+]
+
+
+def _reject_then_accept():
+    """A rejected call, then a valid call for the SAME name - in the same request or in the next request through
+    the same handler class; optionally with warnings escalated (a deprecated keyword is then refused late, too)."""
+    def build(name, rej, api2, value2, attrs2, across, werr, again):
+        first = (rej[0], name, rej[1], dict(rej[2]))
+        if werr:
+            first = ("set", name, "w", {"domain": "example.com", "legacy": {"HttpOnly": True}})
+        second = (api2, name, "" if api2 == "clear" else value2, dict(attrs2))
+        ops = ([FILTER_ERROR] if werr else []) + [first] + ([NEXT_REQUEST] if across else []) + [second]
+        if again:
+            ops += [NEXT_REQUEST, ("set", name, "third", {})]
+        return ops
+    return st.builds(build, st.sampled_from(GOOD_NAMES), st.sampled_from(LATE_REJECTED),
+                     st.sampled_from(["set", "set", "signed", "clear"]), st.sampled_from(GOOD_VALUES),
+                     st.sampled_from(GOOD_ATTRS), st.booleans(), st.sampled_from([False, False, True]), st.booleans())
 FILTER_ERROR = ("filter", "", "error", {})
 DEPRECATED_KW = [{"HttpOnly": True}, {"Secure": True}, {"Version": "1"}, {"Comment": "c"}, {"SameSite": "Lax"},
                  {"Domain": "example.com"}, {"Path": "/x"}, {"Expires": "Wed, 01 Jan 2030 00:00:00 GMT"}, {"Max-Age": "5"},
@@ -756,7 +818,7 @@ def _with_ending():
 
 
 case_s = st.one_of(st.lists(_op(), min_size=1, max_size=3), st.lists(_op(), min_size=1, max_size=3),
-                   _streaming(), _accept_then_reject(), _with_ending(), _warnings_as_errors())
+                   _streaming(), _accept_then_reject(), _with_ending(), _warnings_as_errors(), _reject_then_accept())
 
 
 def shape_cases():
@@ -780,6 +842,15 @@ def shape_cases():
             yield [f, ("set", "b", "2", {"httponly": True}), ("end", "", kind, {})]
             yield [f, ("set", f[1], "\u20ac", {}), ("end", "", kind, {})]      # rejected second call, then the ending
         yield [f, FLUSH_W, ("end", "", "http403", {})]                        # error after the headers have left
+    # a late-rejected call, then a valid call for the same name: same request / next request / both
+    for rej in LATE_REJECTED:
+        first = (rej[0], "a", rej[1], dict(rej[2]))
+        for second in (("set", "a", "ok", {}), ("signed", "a", "ok", {}), ("clear", "a", "", {}),
+                       ("set", "a", "ok", {"path": "/y", "samesite": "Lax"})):
+            yield [first, second]
+            yield [first, NEXT_REQUEST, second]
+            yield [first, NEXT_REQUEST, ("set", "b", "2", {}), second, NEXT_REQUEST, second]
+    yield [FILTER_ERROR, ("set", "a", "w", {"domain": "example.com", "legacy": {"HttpOnly": True}}), NEXT_REQUEST, ("set", "a", "ok", {})]
     # warnings escalated to errors: a call with a deprecated mixed-case keyword raises and must have no effect
     for kw in DEPRECATED_KW:
         for api in ("set", "signed", "clear"):
